@@ -146,4 +146,6 @@ open Ezpz
 #check @GN.step_of_blocks
 #check @newtonLoop_union_prefix
 #check @residual_test_union_iff
+#check @solveWithPriority_unionMany_converged       -- k groups
+#check @solveWithPriority_unionMany_any_order_exact -- any interleaving and numbering
 #check @step_test_is_global                        -- the one global effect (F17)
